@@ -272,6 +272,26 @@ pub fn run(run: &Run) -> (u64, u64) {
     });
     let n4 = t.tried.load(Ordering::Relaxed) - before;
     run.family("FEN-SHORT-STRINGS", &format!("all strings of length <= {maxlen} over a {}-symbol alphabet", sa.len()), n4, n4, true, "");
+    // (5) long inputs (a FEN followed by a comment, as in EPD files): a multi-byte character at every byte offset,
+    // behind valid and behind invalid prefixes — the error path must cope with any text
+    let mut longs: Vec<String> = vec![];
+    for prefix in ["rnbqkbnr/pppppppp/8/8/8/8/PPPPPPPP/RNBQKBNR w KQkq - 0 1", "rnbqkbnr/pppppppp/8/8/8/8/PPPPPPPP/RNBQKBNR w KQkq - 0 1 ;", "8/8/8/8/8/8/8/8 x", "", "k7/8/8/8/8/8/8/K7 w - - 0 1 bm Kb2; id \"x\";"] {
+        for pad in 0..=(if run.quick() { 140 } else { 300 }) {
+            for ch in ["\u{e9}", "\u{20ac}", "\u{1F600}"] {
+                longs.push(format!("{prefix}{}{ch}{}", "a".repeat(pad), " Er\u{f6}ffnung \u{2654}".repeat(3)));
+            }
+        }
+    }
+    for n in [100usize, 255, 256, 1000, 4096, 65_536] {
+        longs.push("8/".repeat(n));
+        longs.push(format!("{} w - - 0 1", "p".repeat(n)));
+        longs.push(format!("4k3/8/8/8/8/8/8/4K3 w - - 0 {}", "9".repeat(n.min(400))));
+    }
+    let before = t.tried.load(Ordering::Relaxed);
+    par_for(longs.len(), |i| try_one(run, &t, &longs[i], "long-inputs"));
+    let n5 = t.tried.load(Ordering::Relaxed) - before;
+    run.family("FEN-LONG-INPUTS", "5 prefixes x 0..=140 (thorough 300) ASCII pad characters x a 2-, 3- and 4-byte character, followed by more text; very long repetitions", n5, n5, true, "");
+    let n4 = n4 + n5;
     run.count("fen_strings_tried", t.tried.load(Ordering::Relaxed));
     run.count("fen_strings_accepted", t.accepted.load(Ordering::Relaxed));
     run.count("fen_strings_rejected", t.rejected.load(Ordering::Relaxed));
